@@ -1082,3 +1082,124 @@ def check_get_wait(ctx, fb, rule, classes):
                 continue
             break
     return n
+
+
+# ---------------------------------------------------------------------------------------------------------------------
+# R-STOREOVER: typestate of the Result storage of a core (ResultCore keeps the Result in a union: Store placement-news)
+class _StoreWalker(pathwalk.Walker):
+    max_paths = 4000
+
+    def __init__(self, fb, cls_chain):
+        super().__init__(fb)
+        self.cls_chain = cls_chain
+
+    def inline(self, fn, n, st):
+        g = self.fb.fn.get(n.get('ck'))
+        if g is None or g.cfg is None or st.depth >= 2 or 'virtual' in g.flags or 'ctor' in g.flags:
+            return None
+        if g.n in ('Store',) or g.clsq == 'yaclib::Result':
+            return None
+        if g.cls in self.cls_chain and g.clsq not in ('yaclib::detail::BaseCore',):
+            return g
+        return None
+
+    def on_node(self, fn, n, st):
+        if n['k'] == 'CXXMemberCallExpr':
+            cn = n.get('cn', '')
+            if cn.endswith('ResultCore::Store'):
+                st.events.append(('store', fn.loc(n)))
+            elif cn == 'yaclib::Result::~Result':
+                o = fn.sn(n['obj']) if n.get('obj') is not None else None
+                if o is not None and o['k'] == 'MemberExpr' and o.get('mn') == '_result':
+                    st.events.append(('destroy', fn.loc(n)))
+
+
+def check_store_over(ctx, fb, rule):
+    """The Result of a core lives in a union inside ResultCore: Store() constructs it in place, the destructor of
+    ResultCore destroys it once.  A core class whose constructor already stores a Result (ReadyCore, the head of
+    MakeTask) is 'live' from then on: any later Store on it must be preceded, on its path, by the explicit destruction
+    of the old Result — otherwise the old value's destructor never runs (leak of whatever it owns).  Conversely a
+    destroy without a following Store leaves ~ResultCore to destroy a dead object."""
+    n = 0
+    ctors_of = {}
+    for g in fb.fn.values():
+        if 'ctor' in g.flags and g.cfg is not None and g.cls:
+            ctors_of.setdefault(g.cls, []).append(g)
+    for f in sorted(fb.fn.values(), key=lambda f: f.full):
+        if f.cfg is None or 'ctor' in f.flags or 'dtor' in f.flags or not f.cls:
+            continue
+        if f.n not in ('Drop', 'Call', 'Here', 'Next', 'Stop', 'Cancel'):
+            continue
+        bases = fb.all_bases(f.cls)
+        if not any(b.startswith('yaclib::detail::ResultCore<') or b == 'yaclib::detail::ResultCore' for b in bases):
+            continue
+        # is the storage live when a method of this class starts?  (some constructor of the class stores)
+        ctors = ctors_of.get(f.cls, [])
+        live = bool(ctors) and all(any(c['cn'].endswith('ResultCore::Store') for c in g.calls()) for g in ctors)
+        if not live:
+            continue
+        if f.n not in ('Drop', 'Call', 'Here', 'Next', 'Stop', 'Cancel'):
+            continue
+        key = 'R-STOREOVER %s::%s' % (f.clsq.split('::')[-1], f.n)
+        try:
+            res = _StoreWalker(fb, [f.cls] + list(bases)).run(f)
+        except pathwalk.TooManyPaths as e:
+            ctx.broken('%s: %s' % (f.full[:100], e))
+        ctx.instance(rule, key + ' :: ' + f.cls[:100], dict(paths=len(res)))
+        n += 1
+        for st, _ in res:
+            state = 'live'
+            bad = None
+            for e in st.events:
+                if e[0] == 'store':
+                    if state == 'live':
+                        bad = (e[1], 'a Result is constructed over the one this core already holds (it was stored by '
+                               'the constructor): the old value is never destroyed — whatever it owns leaks')
+                        break
+                    state = 'live'
+                elif e[0] == 'destroy':
+                    if state == 'dead':
+                        bad = (e[1], 'the stored Result is destroyed twice')
+                        break
+                    state = 'dead'
+            if bad is None and state == 'dead':
+                bad = (f.where, 'the stored Result is destroyed and nothing is stored again: ~ResultCore destroys a dead '
+                       'object')
+            if bad:
+                ctx.report(rule, key, bad[0], bad[1], 'instantiation: ' + f.full[:300])
+                break
+    return n
+
+
+# ---------------------------------------------------------------------------------------------------------------------
+# R-APICOVER: every public function template is instantiated by some analysed unit
+API_EXEMPT = {
+    # qualified name -> reason it needs no instantiation
+}
+
+
+def check_api_cover(ctx, fbs, rule):
+    from vlib import facts
+    """Rules are evaluated on instantiations.  A public namespace-scope function template of the library (a factory, an
+    algorithm, an operator) that no probe and no library unit instantiates is seen by no rule at all — and, as finding
+    F14 showed (MakeSharedContractOn), may not even compile.  The extractor lists every such template with the number
+    of specialisations the unit instantiated; the union over the analysed configurations must be positive for each.
+    An uncovered entry is an analysis gap (exit 2), not a violation: add it to a probe."""
+    tot = {}
+    for cfg, fb in fbs.items():
+        for k, v in fb.templates.items():
+            tot[k] = tot.get(k, 0) + v
+    pub = {k: v for k, v in tot.items() if k[0].startswith('yaclib::') and not k[0].startswith('yaclib::detail') and
+           '::when::' not in k[0] and '/include/yaclib/' in k[1] and '/fault/' not in k[1] and
+           not k[1].endswith('fwd.hpp')}
+    if len(pub) < 60:
+        ctx.broken('R-APICOVER: only %d public function templates listed by the extractor' % len(pub))
+    miss = []
+    for k, v in sorted(pub.items()):
+        ctx.instance(rule, 'R-APICOVER %s @%s:%d' % (k[0], facts.rel(k[1]), k[2]), None)
+        if v == 0 and k[0] not in API_EXEMPT:
+            miss.append('%s (%s:%d)' % (k[0], facts.rel(k[1]), k[2]))
+    if miss:
+        ctx.broken('R-APICOVER: public function templates that no analysed unit instantiates (add them to a probe): ' +
+                   '; '.join(miss[:8]))
+    return len(pub)
